@@ -95,7 +95,25 @@ impl Check for C05 {
             _ => {
                 let len = rng.range(1, 3 * n.min(60) + 12);
                 let p_recover = *rng.pick(&[2u64, 10, 30, 60]);
-                Driver::Script((0..len).map(|_| if rng.below(100) < p_recover { DrvOp::Recover } else { DrvOp::Next }).collect())
+                // one history in three also reconfigures the iterator between calls (tolerated classes, size limit, EOF closing)
+                let p_reconf = if rng.chance(1, 3) { *rng.pick(&[3u64, 10, 25]) } else { 0 };
+                Driver::Script(
+                    (0..len)
+                        .map(|_| {
+                            if rng.below(100) < p_reconf {
+                                match rng.below(3) {
+                                    0 => DrvOp::Allow(rng.below(8) as u8),
+                                    1 => DrvOp::MaxSize(rng.below(8) as u8),
+                                    _ => DrvOp::EofEnd(rng.chance(1, 2)),
+                                }
+                            } else if rng.below(100) < p_recover {
+                                DrvOp::Recover
+                            } else {
+                                DrvOp::Next
+                            }
+                        })
+                        .collect(),
+                )
             }
         };
         ReadCase { spec, input: Arc::new(gi.bytes), cfg, script, driver, class: gi.class }
@@ -138,7 +156,15 @@ impl Check for C05 {
             fail!("item-bound", "{} successful items from {} input bytes (bound {})", ok_items, n, bound);
         }
         // (4) fused
-        if let Some(k) = (0..tr.evs.len()).find(|k| matches!(tr.evs[*k], Ev::None) && tr.ended_at[*k]) {
+        // (a history that switches EOF closing back on afterwards asks for the closing Ends: judged from that call on)
+        let last_eof_on = match &rc.driver {
+            Driver::Script(ops) => ops.iter().take(tr.evs.len()).rposition(|o| matches!(o, DrvOp::EofEnd(true))).map_or(0, |i| i + 1),
+            _ => 0,
+        };
+        if tr.evs.iter().any(|e| matches!(e, Ev::Cfg)) {
+            st.inc("probe_reconfigured_mid_stream");
+        }
+        if let Some(k) = (last_eof_on..tr.evs.len()).find(|k| matches!(tr.evs[*k], Ev::None) && tr.ended_at[*k]) {
             st.inc("probe_none_after_exhaustion");
             for (j, e) in tr.evs.iter().enumerate().skip(k + 1) {
                 if matches!(e, Ev::Tag(..) | Ev::Err(_)) {
@@ -232,7 +258,7 @@ impl Check for C05 {
         c.shrink(true)
     }
     fn rule(&self) -> &'static str {
-        "One case = specification (generated table or the easy_ebml!-generated StaticSpec) + arbitrary bytes (random / byte-faulted valid document / header soup / valid / truncated / a master nested in itself 20-400 deep) + configuration (tolerated classes, buffered ids, capacity 0.., size limit <= 1 MiB, EOF closing on/off) + delivery schedule with injected hard errors, Interrupted and pauses + a driver history of next()/try_recover() calls. Non-trivial: non-empty input and more than one API call. Distinct: FNV-1a fingerprint of bytes + configuration + schedule + history."
+        "One case = specification (generated table or the easy_ebml!-generated StaticSpec) + arbitrary bytes (random / byte-faulted valid document / header soup / valid / truncated / a master nested in itself 20-400 deep) + configuration (tolerated classes, buffered ids, capacity 0.., size limit <= 1 MiB, EOF closing on/off) + delivery schedule with injected hard errors, Interrupted and pauses + a driver history of next()/try_recover() calls, one in nine also with allow_errors / set_max_allowable_tag_size / emit_master_end_when_eof calls in between. Non-trivial: non-empty input and more than one API call. Distinct: FNV-1a fingerprint of bytes + configuration + schedule + history."
     }
     fn assumptions(&self) -> Vec<&'static str> {
         vec![
@@ -243,6 +269,6 @@ impl Check for C05 {
         ]
     }
     fn expected_probes(&self) -> Vec<&'static str> {
-        vec!["probe_io_error_surfaced", "probe_io_error_after_queued_items", "probe_recover_ok", "probe_recover_err", "probe_none_after_exhaustion", "spec_derive_generated", "input_deep_nesting"]
+        vec!["probe_io_error_surfaced", "probe_io_error_after_queued_items", "probe_recover_ok", "probe_recover_err", "probe_none_after_exhaustion", "probe_reconfigured_mid_stream", "spec_derive_generated", "input_deep_nesting"]
     }
 }
